@@ -233,6 +233,25 @@ def run(case, tmp):
     if g.cellsize != case["csz"]:
         raise Violation("clone shares georeferencing with the original")
 
+    # ---- clone with a dtype argument (own dtype: must still be a copy)
+    c3 = g.clone(dt.type)
+    check_meta(g, c3, "clone(own dtype)")
+    check_data(data, c3.data, "clone(own dtype)")
+    c3[p] = newv
+    check_data(data, g.data, "writing into clone(own dtype) changed the "
+               "original")
+    c4 = g.clone(dt.type)
+    g[p] = newv
+    check_data(data, c4.data, "writing into the original changed its "
+               "clone(own dtype)")
+    g[p] = other
+    c5 = g.clone(np.float64)
+    if c5.data.dtype != np.float64 or np.shares_memory(c5.data, g.data):
+        raise Violation("clone(float64) does not give an independent "
+                        "float64 grid")
+    c5.fill(3.0)
+    check_data(data, g.data, "fill on clone(float64) changed the original")
+
     # ---- clip
     nr, nc, csz = case["nrows"], case["ncols"], case["csz"]
     cA = sorted([int(case["clip"][0] * nc) % nc, int(case["clip"][1] * nc)
@@ -339,6 +358,9 @@ def catch_oracle(case):
             if c not in inlets:
                 inlets.append(c)
     ca = Catchment("cat", g)
+    if np.shares_memory(ca.flowdir.data, g.data):
+        raise Violation("a catchment shares its flow direction data with "
+                        "the grid it was built from")
     ca.delineate_area(outlet, inlets if inlets else None, nval=4 * n + 8)
     labels = []
     d = ca.to_dict()
